@@ -167,6 +167,9 @@ impl std::error::Error for MemoryError {}
 #[derive(Debug)]
 pub struct MemoryBudget {
     total_limit: AtomicUsize,
+    /// Sum of all pools, maintained by compare-and-swap so that the limit check and the
+    /// reservation are one atomic step.
+    total_used: AtomicUsize,
     cache_used: AtomicUsize,
     query_used: AtomicUsize,
     recovery_used: AtomicUsize,
@@ -193,6 +196,7 @@ impl MemoryBudget {
 
         Self {
             total_limit: AtomicUsize::new(limit),
+            total_used: AtomicUsize::new(0),
             cache_used: AtomicUsize::new(0),
             query_used: AtomicUsize::new(0),
             recovery_used: AtomicUsize::new(0),
@@ -206,11 +210,7 @@ impl MemoryBudget {
     }
 
     pub fn total_used(&self) -> usize {
-        self.cache_used.load(Ordering::Acquire)
-            + self.query_used.load(Ordering::Acquire)
-            + self.recovery_used.load(Ordering::Acquire)
-            + self.schema_used.load(Ordering::Acquire)
-            + self.shared_used.load(Ordering::Acquire)
+        self.total_used.load(Ordering::Acquire)
     }
 
     pub fn available(&self, pool: Pool) -> usize {
@@ -265,7 +265,7 @@ impl MemoryBudget {
 
         loop {
             let current_pool_used = pool_counter.load(Ordering::Acquire);
-            let current_total_used = self.total_used();
+            let current_total_used = self.total_used.load(Ordering::Acquire);
             let total_limit = self.total_limit();
 
             let new_pool_used = current_pool_used + bytes;
@@ -292,13 +292,18 @@ impl MemoryBudget {
                 }
             }
 
-            match pool_counter.compare_exchange_weak(
-                current_pool_used,
-                new_pool_used,
+            // Reserve against the total first: the limit check above and this swap are on the
+            // same value, so concurrent allocations in different pools cannot both pass.
+            match self.total_used.compare_exchange_weak(
+                current_total_used,
+                new_total_used,
                 Ordering::AcqRel,
                 Ordering::Acquire,
             ) {
-                Ok(_) => return Ok(()),
+                Ok(_) => {
+                    pool_counter.fetch_add(bytes, Ordering::AcqRel);
+                    return Ok(());
+                }
                 Err(_) => continue,
             }
         }
@@ -321,7 +326,13 @@ impl MemoryBudget {
                 Ordering::AcqRel,
                 Ordering::Acquire,
             ) {
-                Ok(_) => return,
+                Ok(_) => {
+                    let released = current - new_value;
+                    let _ = self.total_used.fetch_update(Ordering::AcqRel, Ordering::Acquire, |t| {
+                        Some(t.saturating_sub(released))
+                    });
+                    return;
+                }
                 Err(_) => continue,
             }
         }
@@ -357,6 +368,7 @@ impl MemoryBudget {
     }
 
     pub fn reset(&self) {
+        self.total_used.store(0, Ordering::Release);
         self.cache_used.store(0, Ordering::Release);
         self.query_used.store(0, Ordering::Release);
         self.recovery_used.store(0, Ordering::Release);
